@@ -43,8 +43,8 @@ func VH_C13_tree() {
 		ci.ModeStr = modeStr
 	}
 	if opt&4 != 0 {
-		wantTime = 1234000000000
-		tm := time.Unix(1234, 0)
+		wantTime = 1234987654321
+		tm := time.Unix(1234, 987654321) // nanosecond precision: not a whole micro- or millisecond
 		ci.Utime = &tm
 	}
 	notified := map[string]int{}
